@@ -176,6 +176,8 @@ def run(ctx: Ctx) -> Result:
                    'if { push x' + 'ab' * 65535 + ' }', 'def 256 { }', 'def 0 { ', 'if { true', 'op_nonexistent', 'nop300 d1', 'nop92 d200', 'write_cache xaa d256',
                    'push1 x' + 'ab' * 256, 'div_float x0102', 'check_multisig d1 d2', '!undefined [ ]', '# unterminated comment', 'try { true } except { false } except { true }',
                    'push d1 if', 's"unterminated', 'check_multisig x00 d-1 d2', 'check_multisig x00 d2.0 d2', 'check_multisig x00 dtwo d3', 'check_multisig_verify x00 d+3 d3', 'swap d-1 d2', 'swap dtwo d1', 'add_ints dtwo']
+    # macros defined by EARLIER sources (the sugar list above ran in this process) are unknown to a source that does not define them
+    bad_sources += ['!pair [ d1 d2 ]', '!two [ ]', 'true !m [ ]', 'push ~ { !body [ ] }', 'true !w [ x01 ]', '!body [ x01 ]']
     for src in bad_sources:
         res.note_case(('bad', src[:80]))
         got = comp(src)
